@@ -27,6 +27,9 @@ pub fn dispatch(f: &[&str]) -> String {
         "fmt_roundtrip" => fmt_roundtrip(f[1], f[2]),
         "parse" => parse_op(f[1], f[2]),
         "fmt_prec" => fmt_prec(f[1], f[2], f[3], f[4]),
+        "config" => { let c = Context::default(); format!("{} {:?}", c.precision(), c.rounding_mode()) }
+        "sqrt" => sqrt_op(f[1], f[2], f[3], f[4]),
+        "cbrt" => { let x = p_dec(f[1]); f_dec(&x.cbrt_with_context(&ctx(f[2], f[3]))) }
         "to_prim" => to_prim(f[1], f[2], f[3]),
         "to_bigint" => match p_dec(f[1]).to_bigint() { Some(v) => v.to_string(), None => "None".to_string() },
         "is_integer" => p_dec(f[1]).is_integer().to_string(),
@@ -294,5 +297,17 @@ fn fmt_prec(kind: &str, a: &str, n: &str, flags: &str) -> String {
         ("E", "plain") => format!("{:.*E}", p, x),
         ("E", _) => format!("{:*>+40.*E}", p, x),
         _ => "UNKNOWN-FMT".to_string(),
+    }
+}
+
+fn sqrt_op(entry: &str, a: &str, p: &str, mode: &str) -> String {
+    let x = p_dec(a);
+    let c = ctx(p, mode);
+    match entry {
+        "sqrt_with_context" => f_opt_dec(&x.sqrt_with_context(&c)),
+        "ref_sqrt_with_context" => f_opt_dec(&x.to_ref().sqrt_with_context(&c)),
+        "ref_sqrt_abs" => f_dec(&x.to_ref().sqrt_abs_with_context(&c)),
+        "ref_sqrt_copysign" => f_dec(&x.to_ref().sqrt_copysign_with_context(&c)),
+        _ => "UNKNOWN-SQRT".to_string(),
     }
 }
